@@ -25,6 +25,7 @@ func runC10(c *Ctx) {
 	c.Rule("R10.3", 8, "leaf attributes and concatenation scans equal the textbook table")
 	c.Rule("R10.4", 30, "the two routes expand quantifiers and decompose constructs identically")
 	c.Rule("R10.5", 3, "end-marker discipline")
+	c.Rule("R10.7", 3, "the copy made for a counted repetition is deep")
 	c.Rule("R10.6", 8, "memoised attributes (nullable/firstpos/lastpos) are evaluated only after positions have been assigned")
 
 	ap := c.Pkg("internal/regex/parser/ast")
@@ -43,6 +44,7 @@ func runC10(c *Ctx) {
 	checkSiblingMappers(c, "R10.4")
 	checkEndMarker10(c, ap)
 	checkAttributePhase(c, ap)
+	checkCopyDeep(c, ap, "R10.7")
 }
 
 // checkFoldIdentity: acc = acc OP x inside a loop must start from OP's identity.
@@ -900,4 +902,216 @@ func followsAdderParams(p *packages.Package, fd *ast.FuncDecl) (int, int) {
 		return -1, -1
 	}
 	return from, 1 - from
+}
+
+// checkCopyDeep (R10.7): the copy function used when a quantifier duplicates a sub-expression must be deep. The copy function
+// is found by role: a self-recursive function of one parameter whose parameter and result have the same interface type and
+// whose body switches on the parameter's dynamic type. In every case the node-valued fields of the result (the interface
+// type itself or a slice of it) may come from the original only through a recursive call; a case that hands back the
+// original, or stores a child of the original in the copy, makes two copies share leaves, hence positions, hence followpos.
+func checkCopyDeep(c *Ctx, p *packages.Package, rule string) {
+	info := p.TypesInfo
+	var copyFn *ast.FuncDecl
+	AllFuncDecls(p, func(fd *ast.FuncDecl) {
+		if fd.Body == nil || fd.Recv != nil || fd.Type.Params == nil || fd.Type.Results == nil {
+			return
+		}
+		fo, _ := info.Defs[fd.Name].(*types.Func)
+		if fo == nil {
+			return
+		}
+		sig := fo.Type().(*types.Signature)
+		if sig.Params().Len() != 1 || sig.Results().Len() != 1 || !types.Identical(sig.Params().At(0).Type(), sig.Results().At(0).Type()) {
+			return
+		}
+		if _, isIface := sig.Params().At(0).Type().Underlying().(*types.Interface); !isIface {
+			return
+		}
+		rec, sw := false, false
+		ast.Inspect(fd.Body, func(n ast.Node) bool {
+			if call, ok := n.(*ast.CallExpr); ok && objOf(info, call.Fun) == types.Object(fo) {
+				rec = true
+			}
+			if _, ok := n.(*ast.TypeSwitchStmt); ok {
+				sw = true
+			}
+			return true
+		})
+		if rec && sw {
+			copyFn = fd
+		}
+	})
+	if copyFn == nil {
+		c.Undecided(rule, "copy function: found", p.Types.Scope().Pos(), "no self-recursive Node -> Node function switching on the node type was found")
+		return
+	}
+	c.Analysed(p.Types.Path() + "." + copyFn.Name.Name)
+	fo := info.Defs[copyFn.Name]
+	nodeT := fo.Type().(*types.Signature).Params().At(0).Type()
+	param := info.Defs[copyFn.Type.Params.List[0].Names[0]]
+	nodeish := func(t types.Type) bool {
+		if types.Identical(t, nodeT) {
+			return true
+		}
+		if sl, ok := t.Underlying().(*types.Slice); ok && types.Identical(sl.Elem(), nodeT) {
+			return true
+		}
+		return false
+	}
+	var ts *ast.TypeSwitchStmt
+	ast.Inspect(copyFn.Body, func(n ast.Node) bool {
+		if s, ok := n.(*ast.TypeSwitchStmt); ok && ts == nil {
+			ts = s
+		}
+		return true
+	})
+	for _, cl := range ts.Body.List {
+		cc := cl.(*ast.CaseClause)
+		if len(cc.List) != 1 {
+			continue // default or multi-type case: nothing of a specific type to copy
+		}
+		tv, ok := info.Types[cc.List[0]]
+		if !ok || tv.IsNil() {
+			continue
+		}
+		ptr, ok := tv.Type.(*types.Pointer)
+		if !ok {
+			continue
+		}
+		st, ok := ptr.Elem().Underlying().(*types.Struct)
+		if !ok {
+			continue
+		}
+		key := fmt.Sprintf("%s case %s: children reach the copy only through a recursive copy", copyFn.Name.Name, types.ExprString(cc.List[0]))
+		bound := info.Implicits[cc] // the case's own v
+		hasChildren := false
+		for i := 0; i < st.NumFields(); i++ {
+			if nodeish(st.Field(i).Type()) {
+				hasChildren = true
+			}
+		}
+		// parents of every node in the clause
+		parent := map[ast.Node]ast.Node{}
+		var stack []ast.Node
+		for _, s := range cc.Body {
+			ast.Inspect(s, func(n ast.Node) bool {
+				if n == nil {
+					stack = stack[:len(stack)-1]
+					return true
+				}
+				if len(stack) > 0 {
+					parent[n] = stack[len(stack)-1]
+				}
+				stack = append(stack, n)
+				return true
+			})
+		}
+		isRecCall := func(n ast.Node) bool {
+			call, ok := n.(*ast.CallExpr)
+			return ok && objOf(info, call.Fun) == fo
+		}
+		bad, unknown := "", ""
+		// range variables over a child list
+		elemVars := map[types.Object]bool{}
+		var useOK func(e ast.Expr) int // 1 fine, 0 aliasing, -1 unknown
+		useOK = func(e ast.Expr) int {
+			par := parent[e]
+			for {
+				if pe, ok := par.(*ast.ParenExpr); ok {
+					par = parent[pe]
+					continue
+				}
+				break
+			}
+			switch pn := par.(type) {
+			case *ast.CallExpr:
+				if isRecCall(pn) {
+					return 1
+				}
+				if id, ok := ast.Unparen(pn.Fun).(*ast.Ident); ok {
+					if b, ok := info.Uses[id].(*types.Builtin); ok {
+						if b.Name() == "len" || b.Name() == "cap" {
+							return 1
+						}
+						if b.Name() == "append" || b.Name() == "copy" {
+							return 0
+						}
+					}
+				}
+				return -1
+			case *ast.RangeStmt:
+				if pn.X == e {
+					if id, ok := pn.Value.(*ast.Ident); ok && id.Name != "_" {
+						elemVars[info.Defs[id]] = true
+					}
+					return 1
+				}
+				return -1
+			case *ast.IndexExpr:
+				if pn.X == e {
+					return useOK(pn)
+				}
+				return 1
+			case *ast.KeyValueExpr, *ast.CompositeLit, *ast.ReturnStmt:
+				return 0
+			case *ast.AssignStmt:
+				for _, r := range pn.Rhs {
+					if r == e {
+						return 0
+					}
+				}
+				return 1
+			case *ast.BinaryExpr:
+				return 1 // comparison with nil
+			}
+			return -1
+		}
+		for _, s := range cc.Body {
+			ast.Inspect(s, func(n ast.Node) bool {
+				switch x := n.(type) {
+				case *ast.SelectorExpr:
+					id, ok := ast.Unparen(x.X).(*ast.Ident)
+					if !ok || bound == nil || info.Uses[id] != bound {
+						return true
+					}
+					if tv, ok := info.Types[x]; !ok || !nodeish(tv.Type) {
+						return true
+					}
+					switch useOK(x) {
+					case 0:
+						bad = fmt.Sprintf("%s.%s is stored in the copy as it is", id.Name, x.Sel.Name)
+					case -1:
+						unknown = fmt.Sprintf("the use of %s.%s", id.Name, x.Sel.Name)
+					}
+				case *ast.Ident:
+					o := info.Uses[x]
+					if o == nil {
+						return true
+					}
+					if elemVars[o] {
+						switch useOK(x) {
+						case 0:
+							bad = fmt.Sprintf("the element %s of the original's children is stored in the copy as it is", x.Name)
+						case -1:
+							unknown = "the use of the element " + x.Name
+						}
+					}
+					if (o == bound || o == param) && hasChildren {
+						if _, isRet := parent[x].(*ast.ReturnStmt); isRet {
+							bad = "the original node is returned as its own copy"
+						}
+					}
+				}
+				return true
+			})
+		}
+		switch {
+		case bad != "":
+			c.Fail(rule, key, cc.Pos(), bad+": the copies made for a counted repetition share the sub-tree, its leaves get one position each instead of one per copy, and followpos merges the contexts of the copies (e.g. (a*b){2} accepts \"ab\")")
+		case unknown != "":
+			c.Undecided(rule, key, cc.Pos(), unknown+" was not recognised as a recursive copy")
+		default:
+			c.Pass(rule, key, cc.Pos(), "")
+		}
+	}
 }
